@@ -24,6 +24,7 @@ RULE = ("trees: every shape up to depth 2 / fan-out 2 over {file, empty file, em
         "with >= 1 component.")
 RULE += ("  " + 'Also: the same relative name denoting a file in one directory and a directory in another: stat / is_file / is_dir / exists before and after change_directory, then download or remove by the relative name.')
 RULE += ("  " + 'Also: after a refused or abandoned recursive listing, a refused remove, and an upload repeated from another working directory, the next operations behave as on a fresh client.')
+RULE += ("  " + 'Also (round 7): download over a stale local copy of the same layout; the root named absolutely, listed (plain, recursive) and stat-ed from other working directories.')
 ASSUMPTIONS = ["documented placement rule: destination/source.name/... by default, destination/... with write_into",
                "names are plain (C08 covers metacharacters)"]
 REQUIRED_MONITORS = ["upload_tree", "download_tree", "recursive_list", "remove_tree"]
@@ -149,6 +150,17 @@ async def cwd_switch(net, hyg, plan):
                     rec[(where, "kinds-x")] = (await c.is_file("x"), await c.is_dir("x"))
                 elif probe == "exists":
                     rec[(where, "exists-y")] = await c.exists("y")
+            # the root, named absolutely, is the root from every working directory
+            try:
+                got_root = sorted(str(p_) for p_, _i in await c.list("/"))
+                got_all = sorted(str(p_) for p_, _i in await c.list("/", recursive=True))
+                top = (await c.stat("/keep.txt")).get("type")
+                mon["recursive_list"] += 1
+                if got_root != ["/a", "/b", "/keep.txt"] or got_all != sorted(remote0) or top != "file":
+                    viol.append({"key": "root-listing-wrong-from-another-cwd",
+                                 "msg": f"plan {plan}: in /{where}: list('/') = {got_root}, recursive {got_all[:6]}..., stat('/keep.txt') type {top}"})
+            except Exception as e:
+                viol.append({"key": "root-listing-raises-from-another-cwd", "msg": f"plan {plan}: in /{where}: {e!r}"[:300]})
         want = {("a", "type-x"): "file", ("b", "type-x"): "dir", ("a", "kinds-x"): (True, False), ("b", "kinds-x"): (False, True),
                 ("a", "exists-y"): False, ("b", "exists-y"): True}
         for k, v in rec.items():
